@@ -14,6 +14,9 @@
 (*                                   default logger                         *)
 (*   Message.write(logger=X)      -> X                                      *)
 (*   X.write(dict)                -> X (no position at all)                 *)
+(*   a.log / Message.write(action=a) -> a's own logger, a's position (a need *)
+(*                                   not be the current action)             *)
+(*   write_traceback(logger=X)    -> X, or like a plain message without X  *)
 (*   report of a failed delivery  -> the Logger whose delivery failed, i.e. *)
 (*                                   the destinations -- NEVER the current  *)
 (*                                   action's logger (C08: faults reported)*)
@@ -61,6 +64,11 @@ Deliver(W, sink, m) ==
      ELSE W1
 Emit(W, sink, kind) == LET p == Pos(W) IN Deliver(Consume(W), sink, [k |-> kind, u |-> p.u, lv |-> p.lv])
 
+\* the same, with the position taken from the action at depth i of the stack (Action.log / Message.write(action=) on an action
+\* that need not be the current one); a report still lands in the CURRENT action
+PosAt(W, i) == [u |-> W.st[i].u, lv |-> Append(W.st[i].pre, W.st[i].next)]
+EmitAt(W, i, sink, kind) == LET p == PosAt(W, i) IN Deliver([W EXCEPT !.st[i].next = @ + 1], sink, [k |-> kind, u |-> p.u, lv |-> p.lv])
+
 Commit(W, h) == /\ stack' = W.st /\ sinks' = W.sk /\ failnext' = W.fn /\ nu' = W.nu /\ nfail' = W.nf /\ hist' = Append(hist, h)
 Room == Len(hist) < MaxOps
 
@@ -91,12 +99,18 @@ SerFail(w) ==
   /\ LET W1 == Consume(World)
          W2 == Emit(W1, SinkOf(w), "tb")
      IN Commit(Emit(W2, SinkOf(w), "sf"), <<"SerFail", w>>)
+\* a.log(...) / Message.write(action=a) for an action a of the stack: a's position, a's own logger
+ActLog(i) == Room /\ i \in DOMAIN stack /\ Commit(EmitAt(World, i, SinkOf(stack[i].lg), "alog"), <<"ActLog", i>>)
+\* write_traceback(logger=x) while an exception is handled: like a plain message when no logger is given, else to x
+TbTo(x) == Room /\ Commit(Emit(World, IF x = "def" THEN (IF stack = <<>> THEN "D" ELSE SinkOf(Last(stack).lg)) ELSE SinkOf(x), "tb"), <<"TbTo", x>>)
 SetFail == Room /\ ~failnext /\ Commit([World EXCEPT !.fn = TRUE], <<"SetFail">>)
 
 Next == \/ \E lg \in Loggers : Start(lg)
         \/ Exit \/ Log \/ SetFail
         \/ \E x \in Loggers \ {"def"} : WriteTo(x) \/ RawWrite(x)
         \/ \E w \in {"def", "L"} : SerFail(w)
+        \/ \E i \in 1..MaxDepth : ActLog(i)
+        \/ \E x \in Loggers : TbTo(x)
 Spec == Init /\ [][Next]_vars
 
 \* ---- properties
